@@ -3,7 +3,7 @@
    rationals travel as numerator, denominator. *)
 From Coq Require Import List NArith ZArith QArith Qcanon Bool.
 From ACB Require Import Base.Outcome Base.QcExtra Base.Fit Base.Arith
-     Model.Rates Model.RatesCache Model.CrashFs.
+     Model.Rates Model.RatesCache Model.CrashFs Model.RatesFail Model.RatesJson.
 Import ListNotations.
 Local Open Scope Z_scope.
 
@@ -156,6 +156,102 @@ Definition run_div : P (list Z) :=
   a <~ pQ ;; b <~ pQ ;;
   pret (match a_div dec a b with Ok r => 1 :: oQ r | _ => [0] end).
 
+(* entry 7: history under a failure script (Model/RatesFail.v).
+   truth, seed cache, years to dump, runs; a run: today, avail, force,
+   look-ups, damage [(year, mask)], cache read script, cache write script,
+   request script (events beyond the end of a script: nothing fails) *)
+Definition prd_ev : P rd_ev :=
+  t <~ pZ ;;
+  match t with
+  | 1 => pret RdErr
+  | 2 => pret RdNone
+  | 3 => m <~ plist pbool ;; pret (RdKeep m)
+  | _ => pret (RdKeep [])
+  end.
+Definition prq_ev : P rq_ev :=
+  t <~ pZ ;; pret (match t with 1 => RqHttp | 2 => RqDoc | _ => RqOk end).
+Record pfrun : Type := { pf_run : prun; pf_damage : list (Z * list bool);
+                         pf_rd : list rd_ev; pf_wr : list bool; pf_rq : list rq_ev }.
+Definition pfrun_p : P pfrun :=
+  r <~ prun_p ;; dm <~ plist (y <~ pZ ;; m <~ plist pbool ;; pret (y, m)) ;;
+  rd <~ plist prd_ev ;; wr <~ plist pbool ;; rq <~ plist prq_ev ;;
+  pret {| pf_run := r; pf_damage := dm; pf_rd := rd; pf_wr := wr; pf_rq := rq |}.
+Definition frun_of (truth : list (Z * obs)) (r : pfrun) : frun :=
+  {| fr_damage := pf_damage r;
+     fr_env := {| fe_env := env_of truth (pf_run r);
+                  fe_rd := fun n => nth n (pf_rd r) (RdKeep []);
+                  fe_wr := fun n => nth n (pf_wr r) false;
+                  fe_rq := fun n => nth n (pf_rq r) RqOk |};
+     fr_lookups := pr_lookups (pf_run r) |}.
+Fixpoint oferr (e : ferr) : Z :=
+  match e with
+  | FNotYet => 1 | FCacheMissing => 2 | FNone7 => 3 | FHttp => 4 | FDoc => 5 | FCacheRead => 6
+  | FLookback x => 10 + oferr x
+  end.
+Definition olog (l : list (Z * bool)) : list Z :=
+  Z.of_nat (length l)
+    :: flat_map (fun x : Z * bool => [fst x; if series_daily (fst x) then 1 else 0; if snd x then 1 else 0]) (rev l).
+Definition oanswerF (a : sum ferr drate * list (Z * bool)) : list Z :=
+  (match fst a with
+   | inr (d, r) => 1 :: d :: oQ r
+   | inl e => [0; oferr e]
+   end) ++ olog (snd a).
+Definition run_histf : P (list Z) :=
+  truth <~ plist pobs ;; seed <~ plist pyear ;; years <~ plist pZ ;;
+  runs <~ plist pfrun_p ;;
+  let s0 := fstate_of {| s_years := []; s_fresh := []; s_cache := seed; s_dl := [] |} in
+  pret (match historyF s0 (map (frun_of truth) runs) with
+        | Ok (s, outs) =>
+            1 :: Z.of_nat (length outs)
+              :: flat_map (fun o =>
+                             (Z.of_nat (length (fo_answers o)) :: flat_map oanswerF (fo_answers o))
+                               ++ olog (fo_log o)
+                               ++ [Z.of_nat (fo_nrd o); Z.of_nat (fo_nwr o)])
+                          outs
+              ++ flat_map (fun y => match aget y (s_cache (f_s s)) with
+                                    | Some l => 1 :: odrates l
+                                    | None => [0]
+                                    end) years
+        | Rej _ => [0]
+        | Panic _ => [2]
+        end).
+
+(* entry 8: a JSON document (tree: 0 null | 1 bool | 2 number token | 3 string |
+   4 array | 5 object with members in document order) through parse_doc.
+   entry 9: a number token: parts, Display text, Decimal *)
+Fixpoint pjv (fuel : nat) : P jv :=
+  match fuel with
+  | O => fun _ => None
+  | S k =>
+      t <~ pZ ;;
+      match t with
+      | 0 => pret JNull
+      | 1 => b <~ pbool ;; pret (JBool b)
+      | 2 => s <~ pbytes ;; pret (JNum s)
+      | 3 => s <~ pbytes ;; pret (JStr s)
+      | 4 => l <~ plist (pjv k) ;; pret (JArr l)
+      | _ => l <~ plist (key <~ pbytes ;; v <~ pjv k ;; pret (key, v)) ;; pret (JObj l)
+      end
+  end.
+Definition run_doc : P (list Z) :=
+  fun l =>
+    (v <~ pjv (length l) ;;
+     pret (match parse_doc v with
+           | None => [0]
+           | Some (Ok rs) => 1 :: odrates rs
+           | Some (Rej _) => [2]
+           | Some (Panic _) => [3]
+           end)) l.
+Definition run_num : P (list Z) :=
+  t <~ pbytes ;;
+  pret (match lex_number t with
+        | None => [0]
+        | Some (neg, n, e) =>
+            [1; if neg then 1 else 0; n; e]
+              ++ (match number_text neg n e with None => [0] | Some s => 1 :: obytes s end)
+              ++ (match to_decimal (JNum t) with None => [0] | Some q => 1 :: oQ q end)
+        end).
+
 Definition dispatch (l : list Z) : list Z :=
   match l with
   | mode :: r =>
@@ -167,6 +263,9 @@ Definition dispatch (l : list Z) : list Z :=
                | 4 => run_crash
                | 5 => run_div
                | 6 => run_proc
+               | 7 => run_histf
+               | 8 => run_doc
+               | 9 => run_num
                | _ => fun _ => None
                end in
       match p r with
